@@ -170,6 +170,32 @@ def attempt(fn, canon):
         return f"!canon-{type(e).__name__}:{e}"
 
 
+def scramble(x, depth=0):
+    """modify a decoded structure in place, everywhere: ParameterValues fields, list items, dict values"""
+    if depth > 6:
+        return
+    if isinstance(x, dict):
+        for k in list(x):
+            scramble(x[k], depth + 1)
+            if isinstance(x[k], (bool, int)) and not isinstance(x[k], bool):
+                x[k] = x[k] + 1
+    elif isinstance(x, list):
+        for i, it in enumerate(x):
+            scramble(it, depth + 1)
+            if isinstance(it, bool):
+                x[i] = not it
+            elif isinstance(it, int):
+                x[i] = it + 1
+    elif isinstance(x, tuple):
+        for it in x:
+            scramble(it, depth + 1)
+    elif hasattr(x, "min_value") and hasattr(x, "max_value") and hasattr(x, "value"):
+        try:
+            x.value, x.min_value, x.max_value = x.value + 1, x.min_value + 1, x.max_value + 7
+        except Exception:  # noqa: BLE001
+            pass
+
+
 def observe(fam, payload, T):
     """decode `payload` with the real code.  Returns (canonical value or E:kind incl. consumed
     byte count, list of purity problems)."""
@@ -188,6 +214,21 @@ def observe(fam, payload, T):
     again.append(attempt(lambda: fresh.data, canon))
     if any(a != first for a in again):
         problems.append(dict(what="decoding the same payload again gives a different result", first=first, again=again))
+    # the decoded values belong to the caller: whatever is done to them (Parameter.set() assigns into a decoded
+    # ParameterValues in place, ScheduleDay edits the decoded bit lists) a later decode of the same bytes must
+    # give the same result -- catches decoders that hand out shared / cached mutable objects
+    if not (first.startswith("E:") or first.startswith("!")):
+        try:
+            scramble(frame.data)
+        except Exception:  # noqa: BLE001
+            pass
+        later = cls(message=bytearray(payload))
+        if T is not None:
+            later.assign_to(device(T))
+        after = attempt(lambda: later.data, canon)
+        if after != first:
+            problems.append(dict(what="decoding the same payload after the previously decoded values were modified in place gives a different result "
+                                      "(decoded objects are shared between decodes)", first=first, again=[after]))
     if bytes(msg) != payload or bytes(frame.message) != payload:
         problems.append(dict(what="decoding modified the payload", before=payload.hex(), after=bytes(msg).hex()))
     if first.startswith("E:") or first.startswith("!"):
